@@ -21,15 +21,18 @@ import (
 	"encoding/hex"
 	"fmt"
 	"io"
+	"math/big"
 	"net/http"
 	"net/http/httptest"
 	"net/url"
 	"strconv"
 	"strings"
 	"time"
+	"unicode"
 
 	"github.com/zeromicro/go-zero/core/codec"
 	"github.com/zeromicro/go-zero/rest/handler"
+	"github.com/zeromicro/go-zero/rest/httpx"
 )
 
 var csKey = []byte("q4t7w!z%C*F-JaNdRgUjXn2r5u8x/A?D") // client-chosen HMAC/AES key (32 bytes)
@@ -42,8 +45,21 @@ type csBase struct {
 	Gen    string `json:"gen,omitempty"` // "p<pattern>:<len>": generated binary payload instead of Body
 	Type   string `json:"type"`          // "0" plain, "1" encrypted
 	TolMs  int64  `json:"tol_ms"`
-	XUri   bool   `json:"xuri"` // request also carries X-Request-Uri = its own (signed) URI, as behind a rewriting proxy
+	TolNs  int64  `json:"tol_ns,omitempty"` // when set: the tolerance in nanoseconds instead of TolMs (extreme / sub-second / negative tolerances)
+	XUri   bool   `json:"xuri"`             // request also carries X-Request-Uri = its own (signed) URI, as behind a rewriting proxy
+	CB     bool   `json:"cb,omitempty"`     // middleware built with a recording UnsignedCallback (which answers 403 itself and never calls next)
 }
+
+// tolNs: the configured tolerance in nanoseconds.
+func (b csBase) tolNs() int64 {
+	if b.TolNs != 0 {
+		return b.TolNs
+	}
+	return b.TolMs * 1_000_000
+}
+
+// tolSec: whole seconds of the tolerance (only used to place the enumerated offsets around the window edges).
+func (b csBase) tolSec() int64 { return b.tolNs() / 1_000_000_000 }
 
 type csMut struct {
 	Kind string `json:"kind"`
@@ -60,7 +76,18 @@ func (c csCase) String() string {
 	if c.Base.Gen != "" {
 		return fmt.Sprintf("%s %s body=%s type=%s tol=%dms / mutation %s", c.Base.Method, c.Base.Target, c.Base.Gen, c.Base.Type, c.Base.TolMs, c.Mut.Kind)
 	}
-	return fmt.Sprintf("%s %s body=%dB type=%s tol=%dms xuri=%v / mutation %s i=%d arg=%q", c.Base.Method, c.Base.Target, len(c.Base.Body), c.Base.Type, c.Base.TolMs, c.Base.XUri, c.Mut.Kind, c.Mut.I, c.Mut.Arg)
+	arg := c.Mut.Arg
+	if len(arg) > 80 {
+		arg = fmt.Sprintf("%s...(%d bytes)", arg[:60], len(arg))
+	}
+	if c.Mut.Kind == "ts-num" {
+		form, shift, _ := strings.Cut(c.Mut.Arg, "|")
+		if shift == "" {
+			shift = "0"
+		}
+		arg = fmt.Sprintf("consistently signed timestamp = now + %s %+d s, spelled %q", shift, c.Mut.I, form)
+	}
+	return fmt.Sprintf("%s %s body=%dB type=%s tol=%v xuri=%v cb=%v / mutation %s i=%d arg=%q", c.Base.Method, c.Base.Target, len(c.Base.Body), c.Base.Type, time.Duration(c.Base.tolNs()), c.Base.XUri, c.Base.CB, c.Mut.Kind, c.Mut.I, arg)
 }
 
 type csWire struct {
@@ -105,8 +132,11 @@ func buildCS(c csCase, now int64) csWire {
 	if c.Base.Gen != "" {
 		body = parseGen(c.Base.Gen)
 	}
+	if m.Kind == "key-len" { // the client's key has another length (AES-128/192 for encrypted bodies; any length for the HMAC: long keys make a multi-block RSA secret)
+		hmacKey = csKeyOfLen(int(m.I))
+	}
 	if typ == "1" && len(body) > 0 {
-		body = []byte(base64.StdEncoding.EncodeToString(aesEncryptECB(csKey, body)))
+		body = []byte(base64.StdEncoding.EncodeToString(aesEncryptECB(hmacKey, body)))
 	}
 	fp, encFp := fp1, fp1
 	version := "version=v1"
@@ -117,6 +147,12 @@ func buildCS(c csCase, now int64) csWire {
 		ts = strconv.FormatInt(now+m.I, 10)
 	case "ts-raw-signed":
 		ts = m.Arg
+	case "ts-num": // Arg = "<form>|<K*2^E>": the integer now + K*2^E + I spelled in that form (big-integer arithmetic)
+		form, shift, _ := strings.Cut(m.Arg, "|")
+		sh, _ := parseShift(shift)
+		v := new(big.Int).Add(big.NewInt(now), sh.big())
+		v.Add(v, big.NewInt(m.I))
+		ts = numRender(v, form)
 	case "type":
 		typ = m.Arg
 	case "signed-method":
@@ -127,7 +163,8 @@ func buildCS(c csCase, now int64) csWire {
 		fp, encFp = fp2, fp2
 	}
 	path, query, _ := decodedPath(target)
-	sig := csSign(hmacKey, ts, method, path, query, body)
+	// the client signs the timestamp as the attribute list carries it (white space at the very end of the secret is not part of the value)
+	sig := csSign(hmacKey, strings.TrimRightFunc(ts, unicode.IsSpace), method, path, query, body)
 	var xuri *string
 	if c.Base.XUri {
 		x := target
@@ -220,6 +257,12 @@ func buildCS(c csCase, now int64) csWire {
 	ct := rsaEncryptPKCS1(&rsaKeys[encFp].PublicKey, []byte(plain))
 	secret := base64.StdEncoding.EncodeToString(ct)
 	switch m.Kind {
+	case "secret-by-codec": // the secret encrypted by go-zero's own client-side helper (random padding; the verdict does not depend on it)
+		if enc, err := codec.NewRsaEncrypter(pubKey1PEM); err == nil {
+			if c2, err := enc.Encrypt([]byte(plain)); err == nil {
+				secret = base64.StdEncoding.EncodeToString(c2)
+			}
+		}
 	case "ct-bit":
 		secret = base64.StdEncoding.EncodeToString(flipBit(ct, int(m.I)))
 	case "ct-byte":
@@ -283,21 +326,6 @@ func parseAttrs(s string) map[string]string {
 	return out
 }
 
-func isDecimal(s string) bool {
-	if strings.HasPrefix(s, "-") {
-		s = s[1:]
-	}
-	if s == "" {
-		return false
-	}
-	for _, c := range s {
-		if c < '0' || c > '9' {
-			return false
-		}
-	}
-	return true
-}
-
 type csExpect struct {
 	Verdict   int
 	Reason    string
@@ -309,7 +337,9 @@ type csExpect struct {
 	XUriMatches bool // the signature does verify over the X-Request-Uri header's path/query
 }
 
-func csOracle(w csWire, now int64, tolMs int64, memo *rsaMemo) csExpect {
+// csOracle: tolNs is the configured tolerance in nanoseconds. The time window is decided with
+// math/big (num.go): |now - time| <= tolerance can neither wrap nor round, whatever the header says.
+func csOracle(w csWire, now int64, tolNs int64, memo *rsaMemo) csExpect {
 	rej := func(r string) csExpect { return csExpect{Verdict: mustNot, Reason: r} }
 	if w.Header == nil {
 		return rej("no-header")
@@ -339,18 +369,34 @@ func csOracle(w csWire, now int64, tolMs int64, memo *rsaMemo) csExpect {
 		return rej("bad-key-in-secret")
 	}
 	ts := in["time"]
-	if !isDecimal(ts) {
+	// Canonical decimal integer: pinned both ways. Any other spelling (leading '+' or zeros,
+	// fraction, exponent, base prefix, separators, white space): if NO tolerant reading of it lies
+	// inside the window the request must be refused; a non-canonical spelling of an in-window
+	// instant is not pinned (the statement does not fix a syntax).
+	canonicalTs := isCanonicalInt(ts)
+	var readings []*big.Rat
+	if canonicalTs {
+		v, _ := parseDecimal(ts)
+		readings = []*big.Rat{v}
+	} else {
+		readings = lenientReadings(ts)
+	}
+	if len(readings) == 0 {
 		return rej("bad-timestamp")
 	}
-	t, err := strconv.ParseInt(ts, 10, 64)
-	if err != nil {
-		return rej("bad-timestamp")
+	inWindow, far := false, true
+	for _, v := range readings {
+		if withinWindow(v, now, tolNs) || (!canonicalTs && withinWindow(v, now+1, tolNs)) {
+			inWindow = true
+		}
+		if d := new(big.Rat).Sub(v, new(big.Rat).SetInt64(now)); d.Abs(d).Cmp(new(big.Rat).SetInt(bigPow2(31))) < 0 {
+			far = false
+		}
 	}
-	d := now - t
-	if t > now {
-		d = t - now
-	}
-	if d < 0 || d > (1<<62)/1000 || d*1000 > tolMs {
+	if !inWindow {
+		if far {
+			return rej("outside-time-window:far") // at a distance where fixed-width arithmetic on the distance can wrap
+		}
 		return rej("outside-time-window")
 	}
 	path, query, ok := decodedPath(w.Target)
@@ -371,6 +417,10 @@ func csOracle(w csWire, now int64, tolMs int64, memo *rsaMemo) csExpect {
 	if w.XUri != nil && *w.XUri != w.Target {
 		e.Verdict = either // the implementation signs the header's URI; liveness is not pinned here
 		e.Reason = "valid-but-foreign-X-Request-Uri"
+	}
+	if !canonicalTs {
+		e.Verdict = either
+		e.Reason = "valid-noncanonical-timestamp"
 	}
 	switch in["type"] {
 	case "0":
@@ -467,9 +517,21 @@ func isFourMethods(m string) bool {
 // checkCS executes one case (re-running it if the wall-clock second changed underneath) and
 // compares with the oracle.
 func checkCS(c csCase, memo *rsaMemo) (*pending, csExpect, csObs) {
-	tol := time.Duration(c.Base.TolMs) * time.Millisecond
+	tol := time.Duration(c.Base.tolNs())
 	var mw func(http.Handler) http.Handler
-	if pi := guard(func() { mw = handler.ContentSecurityHandler(csDecrypters, tol, true) }); pi != nil {
+	var cbCalls, cbCode int
+	cbStrict := true
+	if pi := guard(func() {
+		if c.Base.CB {
+			mw = handler.ContentSecurityHandler(csDecrypters, tol, true, func(w http.ResponseWriter, r *http.Request, next http.Handler, strict bool, code int) {
+				cbCalls++
+				cbCode, cbStrict = code, strict
+				w.WriteHeader(http.StatusForbidden)
+			})
+		} else {
+			mw = handler.ContentSecurityHandler(csDecrypters, tol, true)
+		}
+	}); pi != nil {
 		return panicPending(pi, "constructing ContentSecurityHandler", replayCase{Family: "cs", CS: &c}), csExpect{}, csObs{}
 	}
 	var w csWire
@@ -478,6 +540,7 @@ func checkCS(c csCase, memo *rsaMemo) (*pending, csExpect, csObs) {
 	for attempt := 0; ; attempt++ {
 		now = time.Now().Unix()
 		w = buildCS(c, now)
+		cbCalls, cbCode, cbStrict = 0, 0, true
 		var err error
 		obs, err = serveCS(mw, w)
 		if err != nil {
@@ -490,7 +553,7 @@ func checkCS(c csCase, memo *rsaMemo) (*pending, csExpect, csObs) {
 			return nil, csExpect{Verdict: either, Reason: "clock-unstable"}, obs
 		}
 	}
-	exp := csOracle(w, now, c.Base.TolMs, memo)
+	exp := csOracle(w, now, c.Base.tolNs(), memo)
 	fail := func(class, msg string) (*pending, csExpect, csObs) {
 		cc := c
 		return &pending{Class: class, Desc: fmt.Sprintf("%s [%s] expected %s(%s), observed ran=%d status=%d", msg, c.String(), verdictName(exp.Verdict), exp.Reason, obs.Ran, obs.Status),
@@ -526,6 +589,20 @@ func checkCS(c csCase, memo *rsaMemo) (*pending, csExpect, csObs) {
 	}
 	if exp.Verdict == mustRun && obs.Ran != 1 {
 		return fail("cs-valid-request-rejected", "validly signed request inside the time window was rejected")
+	}
+	if c.Base.CB && isFourMethods(w.Method) {
+		// the callback is how a refusal is delivered: exactly once per refused request, told that the
+		// route is strict and given a code other than "pass"; never for a request that is let through
+		switch {
+		case exp.Verdict != mustNot && obs.Ran == 0:
+			// refused for another reason than the signature (e.g. 400 for an undecryptable body): not the callback's business
+		case obs.Ran == 0 && cbCalls != 1:
+			return fail("cs-unsigned-callback", fmt.Sprintf("refused request: unsigned callback called %d times (want once)", cbCalls))
+		case obs.Ran == 0 && (!cbStrict || cbCode == httpx.CodeSignaturePass):
+			return fail("cs-unsigned-callback", fmt.Sprintf("refused request: unsigned callback got strict=%v code=%d", cbStrict, cbCode))
+		case obs.Ran == 1 && cbCalls != 0:
+			return fail("cs-unsigned-callback", fmt.Sprintf("request ran the handler AND the unsigned callback was called %d times", cbCalls))
+		}
 	}
 	if obs.Ran == 1 && exp.PlainOK {
 		if !bytes.Equal(obs.Seen, exp.Plain) {
@@ -598,9 +675,9 @@ const stdB64alphabet = "ABCDEFGHIJKLMNOPQRSTUVWXYZabcdefghijklmnopqrstuvwxyz0123
 // full=false restricts the list to the mutations whose outcome depends on the tolerance or on
 // the X-Request-Uri header (timestamp, method, target); the quick tier uses it for the bases
 // that differ from a fully mutated base only in those two parameters.
-func csMutations(b csBase, thorough, full bool, emit func(csMut)) {
+func csMutations(b csBase, thorough, full bool, num int, emit func(csMut)) {
 	emit(csMut{Kind: "none"})
-	tol := b.TolMs / 1000
+	tol := b.tolSec()
 	// timestamp: consistently signed requests at every boundary of the window
 	seen := map[int64]bool{}
 	for _, off := range []int64{0, tol - 1, tol, tol + 1, tol + 2, -(tol - 1), -tol, -(tol + 1), -(tol + 2), 1, -1, 86400 * 365, -86400 * 365} {
@@ -616,6 +693,7 @@ func csMutations(b csBase, thorough, full bool, emit func(csMut)) {
 	for _, off := range []int64{1, -1, tol + 1, -(tol + 1)} {
 		emit(csMut{Kind: "ts-secret-only", I: off})
 	}
+	csNumericMutations(b, num, emit)
 	// method
 	for _, m := range []string{"GET", "POST", "PUT", "DELETE", "PATCH", "HEAD", "OPTIONS", "CONNECT", "TRACE",
 		strings.ToLower(b.Method), strings.Title(strings.ToLower(b.Method)), "patch", "PROPFIND", "FOO"} {
@@ -664,7 +742,83 @@ func csMutations(b csBase, thorough, full bool, emit func(csMut)) {
 	}
 }
 
+// csNumericMutations: the timestamp as an extreme or unusually spelled NUMBER, always consistently
+// signed (secret and signature agree on the string as written), so that only the time window stands
+// between the request and the handler.
+//
+//	level 1 (core)  one wrap distance per arithmetic width (+-2^32, 2^53, 2^55, 2^61, 2^63, 2^64), six spellings of now and of now+tol+1
+//	level 2 (mid)   every distance K*2^E of numShifts(true) exactly; every spelling of now and now+tol+1; the absolute extremes
+//	level 3 (full)  every distance K*2^E with jitter {0, +-tol, +-(tol+1)} (the wrapped value on and just past the
+//	                window edges); every spelling of now, now+-tol, now+-(tol+1), now+-2^55; the absolute extremes
+func csNumericMutations(b csBase, level int, emit func(csMut)) {
+	if level <= 0 {
+		return
+	}
+	tol := b.tolSec()
+	jit := []int64{0}
+	if level >= 3 {
+		jit = []int64{0, tol, -tol, tol + 1, -(tol + 1)}
+	}
+	type key struct {
+		a string
+		i int64
+	}
+	seen := map[key]bool{}
+	out := func(form, shift string, j int64) {
+		k := key{form + "|" + shift, j}
+		if !seen[k] {
+			seen[k] = true
+			emit(csMut{Kind: "ts-num", I: j, Arg: k.a})
+		}
+	}
+	for _, sh := range numShifts(level >= 2) {
+		for _, j := range jit {
+			out("dec", sh.String(), j)
+		}
+	}
+	forms := numForms
+	if level == 1 {
+		forms = []string{"plus", "zero1", "dot0", "e0", "hex", "sp-lead"}
+	}
+	for _, f := range forms {
+		out(f, "", 0)
+		out(f, "", tol+1)
+		if level >= 3 {
+			out(f, "", -(tol + 1))
+			out(f, "", tol)
+			out(f, "", -tol)
+			out(f, "1*2^55", 0)
+			out(f, "-1*2^55", 0)
+		}
+	}
+	if level >= 2 {
+		for _, a := range numAbsolutes() {
+			emit(csMut{Kind: "ts-raw-signed", Arg: a})
+		}
+	}
+}
+
+// csKeyOfLen: a deterministic client key of n bytes.
+func csKeyOfLen(n int) []byte {
+	const pat = "kEy-0123456789+/=;ABCDEFGHIJKLMNOPQRSTUVWXYZ"
+	out := make([]byte, n)
+	for i := range out {
+		out[i] = pat[i%len(pat)] ^ byte(i/len(pat))
+	}
+	return out
+}
+
 func csFieldMutations(b csBase, thorough bool, emit func(csMut)) {
+	// client key lengths (consistent requests): AES-128 / AES-192 keys; for plain bodies also HMAC keys
+	// of 1, 64, 100 and 200 bytes (the last three need a secret of two or three RSA blocks)
+	lens := []int64{16, 24}
+	if b.Type != "1" || b.Body == "" {
+		lens = []int64{1, 16, 24, 64, 100, 200}
+	}
+	for _, n := range lens {
+		emit(csMut{Kind: "key-len", I: n})
+	}
+	emit(csMut{Kind: "secret-by-codec"})
 	// body
 	wireLen := len(b.Body)
 	if b.Type == "1" && wireLen > 0 {
@@ -725,7 +879,7 @@ func csFieldMutations(b csBase, thorough bool, emit func(csMut)) {
 		emit(csMut{Kind: "key-secret-raw", Arg: k})
 	}
 	// content type
-	for _, t := range []string{"0", "1", "2", "-1", "abc", "", "1.0", "01"} {
+	for _, t := range []string{"0", "1", "2", "-1", "abc", "", "1.0", "01", "+1", "+0", "00", "-0", "1e0", "0x1", " 1", "4294967297", "18446744073709551617", "9223372036854775807", strings.Repeat("0", 400) + "1"} {
 		if t != b.Type {
 			emit(csMut{Kind: "type", Arg: t})
 		}
